@@ -745,6 +745,9 @@ fn c09_rate_x(max_items: u32, twin: bool) {
     4 => RateOp::BufferTime(w),
     _ => RateOp::BufferCountTime(1 + e::choose(2) as usize, w),
   };
+  // throttle's window length may depend on the item that opens the window: w+1 for items above a symbolic threshold
+  let dep = matches!(op, RateOp::Throttle(..)) && e::choose_bool();
+  let dep_th = Val::var();
   let script = draw_script(max_items, true);
   let kind = e::choose(2);
   let probe = fresh_probe();
@@ -774,7 +777,8 @@ fn c09_rate_x(max_items: u32, twin: bool) {
         twin_sub!(src.debounce(d(w), sd));
       }
       RateOp::Throttle(w, k) => {
-        twin_sub!(src.throttle(move |_v: &Val| d(w), edge_of(k), sd));
+        let th = dep_th.clone();
+        twin_sub!(src.throttle(move |v: &Val| if dep && model::pred(0, &th, v) { d(w + 1) } else { d(w) }, edge_of(k), sd));
       }
       RateOp::ThrottleTime(w, k) => {
         // throttle_time's boxed selector is not Clone: a single subscription only
@@ -795,7 +799,7 @@ fn c09_rate_x(max_items: u32, twin: bool) {
   let exec = &mut exec_box;
   let cfg09 = format!("{:?}/{}", op, exec.name()).chars().filter(|c| !c.is_ascii_digit() && *c != '(' && *c != ')' && *c != ',' && *c != ' ').collect::<String>();
   e::cfg_begin(&cfg09);
-  e::note(format!("{:?} on {} ; input [{}]", op, exec.name(), script.show()));
+  e::note(format!("{:?}{} on {} ; input [{}]", op, if dep { format!(" (window +1 for items > {})", dep_th.show()) } else { String::new() }, exec.name(), script.show()));
   // exact timed models (debounce, throttle): driven by the same executor runs
   let mut want: Vec<Ev> = vec![];
   let mut pending: Option<(Val, u64)> = None; // debounce: (value, due)
@@ -889,7 +893,7 @@ fn c09_rate_x(max_items: u32, twin: bool) {
             // the leading item is not delivered a second time on the trailing edge
             trailing = None;
           }
-          window_due = Some(now + w);
+          window_due = Some(now + if dep && model::pred(0, &dep_th, v) { w + 1 } else { *w });
         }
       }
       (RateOp::Throttle(..), Ev::Complete) | (RateOp::ThrottleTime(..), Ev::Complete) => {
@@ -1137,9 +1141,9 @@ fn c19_tasks(ntasks: usize) {
         e::fail("task/ran-twice", || format!("one-shot task {} ran {} times", id, runs));
       }
       if runs > 0 {
-        // never before its delay has elapsed (a repeating task additionally waits for its first period,
-        // which starts when the task is created: that is C08's subject, not claimed here)
-        let first_allowed = spawn_time as i64 + delay.unwrap_or(0) as i64;
+        // never before its delay has elapsed; a repeating task runs once per period, so its first run needs one
+        // whole period to have passed since it was handed over (the period timer and the delay run concurrently)
+        let first_allowed = spawn_time as i64 + (delay.unwrap_or(0) as i64).max(if let K::Repeat(p) = k { p as i64 } else { 0 });
         let t = world::counter(70 + id);
         if t < first_allowed {
           e::fail("task/ran-early", || format!("task {} ran at t={} but was not due before t={}", id, t, first_allowed));
